@@ -48,6 +48,17 @@ SEMANTIC = [
   ('aggregation_without_distinct_max', 'P(x, m? Max= y) :- Q(x, y);', 'P', 'distinct'),
   ('inconsistent_distinct', 'P(x) distinct :- Q(x, y);\nP(x) :- R(x, y);', 'P', 'P'),
   ('inconsistent_distinct_3', 'P(x) :- Q(x, y);\nP(x) :- R(x, y);\nP(y) distinct :- R(x, y);', 'P', 'P'),
+  # a head combining an aggregated named field with a plain value
+  ('aggregation_without_distinct_value_head', 'P(x, n? += 1) = x * 2 :- Q(x, y);', 'P', 'distinct'),
+  ('aggregation_without_distinct_value_head_max', 'P(x, m? Max= y) = x :- Q(x, y);', 'P', 'distinct'),
+  # these two classes are rejected for the program as a whole (parser / program constructor): asking for an
+  # unrelated predicate of the invalid program is rejected as well
+  ('aggregation_without_distinct_other_asked', 'P(x, s? += y) :- Q(x, y);\nOther(x) :- Q(x, y);', 'Other', 'distinct'),
+  ('aggregation_value_head_other_asked', 'P(x, n? += 1) = x * 2 :- Q(x, y);\nOther(x) :- Q(x, y);', 'Other', 'distinct'),
+  ('inconsistent_distinct_other_asked', 'P(x) distinct :- Q(x, y);\nP(x) :- R(x, y);\nOther(x) :- Q(x, y);', 'Other', 'P'),
+  ('inconsistent_distinct_interleaved', 'P(x) :- Q(x, y);\nOther(x) :- Q(x, y);\nP(x) distinct :- R(x, y);', 'P', 'P'),
+  ('inconsistent_distinct_interleaved_other_asked', 'P(x) :- Q(x, y);\nOther(x) :- Q(x, y);\nP(x) distinct :- R(x, y);',
+   'Other', 'P'),
   ('recursion_without_base', 'P(x) :- P(y), Q(y, x);', 'P', 'P'),
   ('mutual_recursion_without_base', 'A(x) :- B(y), Q(y, x);\nB(x) :- A(y), Q(y, x);', 'A', None),
   ('functor_bad_argument', 'F(x) :- A(x);\nG := F(B: C);\nP(x) :- G(x);', 'P', 'B'),
